@@ -20,6 +20,7 @@ from . import common as cm
 from . import c10_gen as G
 
 REQ = ["Text.FilePos", "Text.FileText", "Text.Split", "Text.Wire", "S2S.Blocks", "S2S.Insert", "S2S.Wire"]
+REQ_CLOSED = REQ + ["Imports.Import", "Imports.ImportSet", "Imports.Format", "Imports.Wire", "S2S.Closed"]
 
 warnings.simplefilter("ignore", SyntaxWarning)
 
@@ -83,32 +84,39 @@ MAX_MODEL_CHARS = 6000
 
 # rename keys that never apply: their first component is used by no generated import and the key
 # never occurs as a whole word; look-alikes with another character in place of the dot do occur
-RENAME_KEYS = ["zq.w", "k9.vv", "qq.r.s", "zq.w.k9"]
+RENAME_KEYS = ["zq.w", "k9.vv", "qq.r.s", "hold.mod", "bad.ge", "w5.z"]
 
 
 def lookalikes(r, key):
+    """lines in which `key` never occurs as a whole word, but (a) with another character in place of a
+    dot, (b) embedded in a longer word / dotted name: prefix-, suffix- and infix-embedded; in code,
+    strings and comments"""
     alts = [key.replace(".", c) for c in ("_", "/", "-", "X", " ", "$", "..")]
+    emb = ["x" + key, key + "x", "a_%s_b" % key, "thr" + key + "9", "q" + key, key + "_"]
     ident = key.replace(".", "_")
     lines = ["%s = 1" % ident,
-             "s = '%s %s'" % (r.choice(alts), r.choice(alts)),
-             "# %s %s %s" % (r.choice(alts), r.choice(alts), key.replace(".", "Z")),
-             'print(%s, "%s")  # %s' % (ident, key.replace(".", "/"), key.replace(".", "-")),
-             "def f_%s():\n    return %s + %s" % (ident, ident, key.replace(".", "X"))]
+             "s = '%s %s %s'" % (r.choice(alts), r.choice(emb), r.choice(emb)),
+             "# %s %s %s %s" % (r.choice(alts), r.choice(emb), r.choice(emb), key.replace(".", "Z")),
+             'print(%s, "%s")  # %s' % (ident, r.choice(emb), r.choice(emb)),
+             "def f_%s():\n    return %s + x%s + %sx" % (ident, ident, key, key),
+             "v = (a_%s_b, q%s)  # %s" % (key, key, "x" + key),
+             "t = \"\"\"%s\n# %s\n\"\"\"" % (key + "x", "x" + key)]
     r.shuffle(lines)
-    return lines[:r.randint(2, 5)]
+    return lines[:r.randint(3, 6)]
 
 
 def with_rename_map(r, src):
-    """(src', map): src with look-alike lines added (one comment at the top, the rest at the end),
-    and a non-empty rename map none of whose keys occurs as a whole word in src'."""
+    """(src', map): src with near-match lines added (one comment at the top, the rest at the end),
+    and a rename map with 2-4 entries (sometimes 1) none of whose keys occurs as a whole word in src'
+    or matches an import."""
     import re
-    keys = r.sample(RENAME_KEYS, r.randint(1, 2))
-    m = {k: r.choice(["n.y", "renamed", "pp.%s" % k.replace(".", "_")]) for k in keys}
+    keys = r.sample(RENAME_KEYS, r.choice([1, 2, 2, 3, 4]))
+    m = {k: r.choice(["n.y", "renamed", "pp.%s" % k.replace(".", "_"), "NEW"]) for k in keys}
     body = src if src.endswith("\n") else src + "\n"
     extra = []
     for k in keys:
         extra += lookalikes(r, k)
-    new = "# %s\n" % keys[0].replace(".", "_") + body + "\n".join(extra) + ("\n" if r.random() < .8 else "")
+    new = "# %s x%s\n" % (keys[0].replace(".", "_"), keys[-1]) + body + "\n".join(extra) + ("\n" if r.random() < .8 else "")
     if not G.compiles(new) or any(re.search(r"\b%s\b" % re.escape(k), new) for k in keys):
         return None, None
     return new, m
@@ -132,6 +140,8 @@ def gen_cases(ctx, n, ncorpus=0):
     for tag, tool, src, m in [
             ("map1", "transform_map", "import os\nm_x = 1\ns = 'm/x'  # m-x mXx\nprint(m_x)\n", {"m.x": "n.y"}),
             ("map2", "canonicalize_map", "# a_b\nimport os, sys\na_b = 'a/b a-b'\n", {"a.b": "c.d", "zq.w": "renamed"}),
+            ("map4", "canonicalize_map", "import os\nx = threshold.mod  # threshold.mod\ns = 'bad.baadge xbad.ba'\n", {"hold.mod": "new.mod", "bad.ba": "good.goo"}),
+            ("map5", "transform_map", "import os\nx = (xzq.w, zq.wx, a_zq.w_b, k9.vvv, ak9.vv)  # xzq.w zq.wx ak9.vv\n", {"zq.w": "n.y", "k9.vv": "m", "qq.r.s": "t"}),
             ("map3", "transform_map", "x = 1\nzq_w = 2  # zq$w zq..w\n", {"zq.w": "n.y"})]:
         cases.append({"kind": "witness", "tag": tag, "tool": tool, "src": src, "sp": [1, 1], "params": {}, "db": 0,
                       "flags": [True, True, True], "map": m})
@@ -183,7 +193,9 @@ def impl_case(c):
         o_pre(self)
         t = self.input.text
         self._verif_rec = {"input": t.joined, "sp": [t.startpos.lineno, t.startpos.colno],
-                           "blocks": [info(b) for b in self.blocks], "inserts": 0}
+                           "blocks": [info(b) for b in self.blocks], "inserts": 0,
+                           "sets": [[[i.fullname, i.import_as] for i in b.importset.imports]
+                                    for b in self.blocks if isinstance(b, IB)]}
         passes.append(self._verif_rec)
 
     def ins(self):
@@ -201,6 +213,19 @@ def impl_case(c):
         rec["final"] = [info(b) for b in self.blocks]
         rec["renders"] = [rendered[id(b)] for b in self.blocks if isinstance(b, IB)]
         rec["out"] = res if isinstance(res, str) else res.joined
+        rec["sets_final"] = [[[i.fullname, i.import_as] for i in b.importset.imports]
+                             for b in self.blocks if isinstance(b, IB)]
+        try:
+            from pyflyby._importstmt import ImportFormatParams
+            P = ImportFormatParams(params)
+            al = P.align_imports
+            rec["P"] = {"width": P.max_line_length, "indent": P.indent, "hanging": P.hanging_indent,
+                        "align": ({"bool": al} if isinstance(al, bool) else {"col": al} if isinstance(al, int)
+                                  else {"cols": sorted(al)} if isinstance(al, (tuple, list, set)) else {"other": repr(al)}),
+                        "from_spaces": P.from_spaces, "separate": P.separate_from_imports,
+                        "align_future": P.align_future, "black": bool(getattr(P, "use_black", False))}
+        except Exception as e:
+            rec["P"] = {"error": type(e).__name__}
         return res
 
     out = {}
@@ -305,6 +330,48 @@ def pass_expr(p):
                    for n in nodes])
     return "run_tool %s %s %s %s %s %s" % (cm.cstr(p["input"]), cm.cnat(p["sp"][0]), cm.cnat(p["sp"][1]), ns,
                                            cm.cnat(p["inserts"]), cm.clist([cm.cstr(x) for x in p.get("renders", [])]))
+
+
+def ast_imports(node):
+    """the (fullname, import_as) pairs of a top-level import statement, from stdlib ast alone"""
+    out = []
+    if isinstance(node, ast.Import):
+        for a in node.names:
+            out.append([a.name, a.asname or a.name])
+    elif isinstance(node, ast.ImportFrom):
+        mod = "." * node.level + (node.module or "")
+        for a in node.names:
+            full = mod + ("" if mod.endswith(".") else ".") + a.name
+            out.append([full, a.asname or a.name])
+    return out
+
+
+def closed_ok(p):
+    """can this pass be predicted from text + nodes + params alone?  (a pure reformat pass: no
+    inserted block, import sets untouched; formatter model covers everything but black mode)"""
+    P = p.get("P") or {}
+    if "error" in P or P.get("black") or "other" in P.get("align", {}) or p["inserts"]:
+        return False
+    if p.get("sets") != p.get("sets_final"):
+        return False
+    if P["indent"] >= 4000 or P["from_spaces"] >= 4000 or (P["width"] or 0) >= 4000:
+        return False
+    return True
+
+
+def closed_expr(p):
+    from . import c11
+    try:
+        tree, nodes = G.nodes_of(p["input"], tuple(p["sp"]))
+    except (SyntaxError, ValueError):
+        return None
+    items = []
+    for n, node in zip(nodes, tree.body):
+        imps = ast_imports(node) if n["kind"] == "Import" else []
+        items.append("(%s, %s, %s, %s, %s)" % (cm.cnat(n["start"][0]), cm.cnat(n["start"][1]), cm.cnat(n["last"]), cm.cnat(KCODE[n["kind"]]),
+                                               cm.clist([cm.cpair(cm.cstr(f), cm.cstr(a)) for f, a in imps])))
+    return "run_reformat_closed %s %s %s %s %s" % (cm.cstr(p["input"]), cm.cnat(p["sp"][0]), cm.cnat(p["sp"][1]),
+                                                   cm.clist(items), c11.c_params(p["P"]))
 
 
 # ---------------------------------------------------------------------------------------------
@@ -513,6 +580,7 @@ def run(ctx):
                             "non-trivial = the module has a top-level import statement or a block was inserted; distinct by hash of the case")
     ctx.assumptions += [
         "open mode: the rendering of each import block (R), the number of insert_new_import_block calls and the import-set edits are captured from the implementation run; the structural model (split, group, insert, print) is evaluated on them",
+        "closed mode (every pure reformat pass: reformat_*, transform, canonicalize, and the first pass of tidy): the import sets are built by the C11 model (from_imports true) from the imports the harness reads off stdlib ast, the blocks are rendered by the C11 formatter model (print_set_r) with the pass's ImportFormatParams, and the complete output text is predicted from input text + CPython's node list + parameters; counts in passes_closed / passes_open_only",
         "CPython's top-level node list (character columns, kinds Import/StrExpr/Other, last lines) is computed by the harness from ast + tokenize",
         "block selection (find_import_block_by_lineno, select_import_block_by_closest_prefix_match) and the import-set algebra belong to C03/C04 (S2S/Tidy.v); a tool that raises is counted, not compared",
     ]
@@ -534,9 +602,26 @@ def run(ctx):
             where.append((ci, "str"))
     model = cm.coq_eval_json(REQ, exprs, shard=40)
     mv = dict(zip(where, model))
+    # closed mode: pure reformat passes are predicted from text + node list + parameters alone
+    cexprs, cwhere = [], []
+    for ci, (c, im) in enumerate(zip(cases, impl)):
+        if "__exc__" in im or "__timeout__" in im:
+            continue
+        for pi, p in enumerate(im["passes"]):
+            if "out" in p and len(p["input"]) <= MAX_MODEL_CHARS and closed_ok(p):
+                e = closed_expr(p)
+                if e is not None:
+                    cexprs.append(e)
+                    cwhere.append((ci, pi))
+    cmodel = cm.coq_eval_json(REQ_CLOSED, cexprs, shard=40)
+    for (ci, pi), m in zip(cwhere, cmodel):
+        mv[(ci, ("closed", pi))] = m
     for ci, (c, im) in enumerate(zip(cases, impl)):
         compare_one(ctx, c, im, {k[1]: v for k, v in mv.items() if k[0] == ci})
-    ctx.notes["model_evaluations_in_kernel"] = len(exprs)
+    ctx.notes["model_evaluations_in_kernel"] = len(exprs) + len(cexprs)
+    d = ctx.coverage.get("distribution", {})
+    ctx.notes["passes_closed"] = d.get("pass_closed", 0)
+    ctx.notes["passes_open_only"] = d.get("passes", 0) - d.get("pass_closed", 0)
 
 
 def compare_one(ctx, c, im, mvs):
@@ -550,7 +635,9 @@ def compare_one(ctx, c, im, mvs):
     if "exc" in im:
         ctx.bump("tool_raised:" + im["exc"])
         ctx.count(short(c), False)
-        if im["exc"] not in C03_EXCEPTIONS:
+        # block selection / import-set algebra errors (C03) can only come from the editing tools; a
+        # pure reformat pass builds its sets with ignore_shadowed=True and never conflicts
+        if im["exc"] not in C03_EXCEPTIONS or c["tool"] not in ("tidy", "cli_tidy", "star", "broken"):
             # the structural functions modelled here raise nothing on a compilable module
             # (C10_statements_total; preprocess / insert / print are total)
             ctx.violation("no_internal_error", short(c), "%s: %s" % (im["exc"], im.get("msg", "")[:160]))
@@ -576,6 +663,16 @@ def compare_one(ctx, c, im, mvs):
             ctx.disagreement("block list at print time (insert_new_import_block)", short(c), p["final"], m.get("final"))
         elif m["out"] != p["out"]:
             ctx.disagreement("output text (pretty_print)", short(c), p["out"], m["out"])
+        mc = mvs.get(("closed", pi))
+        if mc is not None:
+            if mc is None or mc.get("out") is None:
+                ctx.bump("pass_closed_model_error")
+            else:
+                ctx.bump("pass_closed")
+                if mc["sets"] != p["sets"]:
+                    ctx.disagreement("closed mode: import sets of the blocks (ImportSet(block, ignore_shadowed=True))", short(c), p["sets"], mc["sets"])
+                elif mc["out"] != p["out"]:
+                    ctx.disagreement("closed mode: output text predicted from text + nodes + params", short(c), p["out"], mc["out"])
         expected_input = p["out"]
         ctx.bump("passes")
         if p["inserts"]:
